@@ -73,6 +73,8 @@ type c18Part struct {
 	Decl int     `json:"decl"`
 	Rel  int     `json:"rel"`
 	Zip  int     `json:"zip"`
+	// Present=false: declared / listed as usual but absent from the archive
+	Present bool `json:"present"`
 }
 
 type c18Prof struct {
@@ -85,6 +87,8 @@ type c18Prof struct {
 	Opf    string `json:"opf"`
 	Ver    int    `json:"ver"`
 	Extra  bool   `json:"extra"`
+	// Missing: declared position whose part is absent (0: none)
+	Missing int `json:"missing"`
 }
 
 type c18Case struct {
@@ -134,14 +138,14 @@ func c18Members(c *c18Case) ([]ooxmlw.Member, string) {
 				Rows: []ooxmlw.XRow{
 					{R: 1, HasR: true, Cells: []ooxmlw.XCell{{Ref: "A1", Kind: "is", Text: c18Tok(p.ID)}}},
 					{R: 2, HasR: true, Cells: []ooxmlw.XCell{{Ref: "B2", Kind: "n", Text: strconv.Itoa(p.ID)}}}},
-				DeclPos: p.Decl, RelPos: p.Rel, ZipPos: p.Zip + 1})
+				DeclPos: p.Decl, RelPos: p.Rel, ZipPos: p.Zip + 1, Absent: !p.Present})
 		}
 		return wb.Members(), ".xlsx"
 	case "pptx":
 		d := &ooxmlw.Deck{Extras: c.Prof.Extras, InfraFirst: c.Prof.Infra}
 		for _, p := range c.Parts {
 			d.Slides = append(d.Slides, ooxmlw.PSlide{Text: c18Tok(p.ID), SldID: 256 + 2*p.Rel + p.ID*16, RID: fmt.Sprintf("rId%d", 3+p.Rel),
-				PartName: c18NameStr(p.Name), Target: c18HrefStr(p.Href), DeclPos: p.Decl, RelPos: p.Rel, ZipPos: p.Zip + 1})
+				PartName: c18NameStr(p.Name), Target: c18HrefStr(p.Href), DeclPos: p.Decl, RelPos: p.Rel, ZipPos: p.Zip + 1, Absent: !p.Present})
 		}
 		return d.Members(), ".pptx"
 	case "epub":
@@ -152,7 +156,7 @@ func c18Members(c *c18Case) ([]ooxmlw.Member, string) {
 		b := &ooxmlw.Book{OPFPath: opf, Version: c.Prof.Ver, Extras: c.Prof.Extras, InfraFirst: c.Prof.Infra, NavText: "Contents " + c18Tok(c18NavTok)}
 		for _, p := range c.Parts {
 			b.Chapters = append(b.Chapters, ooxmlw.EChapter{ItemID: fmt.Sprintf("c%d", p.ID), Text: c18Tok(p.ID),
-				PartName: c18NameStr(p.Name), Href: c18HrefStr(p.Href), DeclPos: p.Decl, RelPos: p.Rel, ZipPos: p.Zip + 1})
+				PartName: c18NameStr(p.Name), Href: c18HrefStr(p.Href), DeclPos: p.Decl, RelPos: p.Rel, ZipPos: p.Zip + 1, Absent: !p.Present})
 		}
 		return b.Members(), ".epub"
 	}
@@ -334,6 +338,9 @@ func c18Classify(c *c18Case, got []int) (string, string) {
 		if !wantSet[id] {
 			switch id {
 			case 90:
+				if c.Prof.Missing > 0 {
+					return "substituted:undeclared", fmt.Sprintf("declared part %d is absent from the archive; the undeclared member %s (token %s) is presented (in its place)", c.Prof.Missing, c18DecoyName(c), c18Tok(id))
+				}
 				return "leak:decoy", fmt.Sprintf("the undeclared member %s (token %s) is presented", c18DecoyName(c), c18Tok(id))
 			case 91:
 				return "leak:not-in-spine", fmt.Sprintf("the manifest item that is not in the spine (token %s) is presented", c18Tok(id))
@@ -347,6 +354,9 @@ func c18Classify(c *c18Case, got []int) (string, string) {
 		if seen[id] == 0 {
 			return "missing:" + c18Feature(c), fmt.Sprintf("declared part %d (token %s) is not presented; presented %v, declared %v", id, c18Tok(id), got, want)
 		}
+		if seen[id] > 1 && c.Prof.Missing > 0 {
+			return "substituted:other-part", fmt.Sprintf("declared part at position %d is absent from the archive; token %s of another part is presented %d times", c.Prof.Missing, c18Tok(id), seen[id])
+		}
 		if seen[id] > 1 {
 			return "duplicate", fmt.Sprintf("token %s is presented %d times", c18Tok(id), seen[id])
 		}
@@ -355,7 +365,7 @@ func c18Classify(c *c18Case, got []int) (string, string) {
 	byKey := func(key func(p c18Part) int) []int {
 		ps := []c18Part{}
 		for _, p := range c.Parts {
-			if p.Decl > 0 {
+			if p.Decl > 0 && p.Present {
 				ps = append(ps, p)
 			}
 		}
@@ -399,6 +409,11 @@ type c18Mismatch struct{ API, Symptom, What string }
 func c18Check(c *c18Case, obs []c18API) *c18Mismatch {
 	for _, a := range obs {
 		if a.Err != "" {
+			if c.Prof.Missing > 0 {
+				// the statement does not say whether a reader may refuse a document one of
+				// whose declared parts is absent: not asserted
+				continue
+			}
 			return &c18Mismatch{a.Name, "open-error:" + c18Feature(c), fmt.Sprintf("%s fails on a valid package: %s", a.Name, a.Err)}
 		}
 		if a.Pages != nil {
@@ -428,14 +443,23 @@ func c18Check(c *c18Case, obs []c18API) *c18Mismatch {
 		}
 		if a.Count >= 0 && a.Count != c.Count {
 			sym := "count"
-			ndecoy := 0
+			ndecoy, nabsent := 0, 0
 			for _, p := range c.Parts {
 				if p.Decl == 0 {
 					ndecoy++
+				} else if !p.Present {
+					nabsent++
 				}
 			}
-			if a.Count > c.Count && a.Count <= c.Count+ndecoy {
-				sym = "count:undeclared-counted"
+			if a.Count > c.Count && a.Count <= c.Count+ndecoy+nabsent {
+				switch {
+				case nabsent == 0:
+					sym = "count:undeclared-counted"
+				case ndecoy == 0:
+					sym = "count:unreadable-counted"
+				default:
+					sym = "count:undeclared-or-unreadable-counted"
+				}
 			}
 			return &c18Mismatch{a.Name, sym, fmt.Sprintf("%s reports %d pages, the package declares %d readable parts", a.Name, a.Count, c.Count)}
 		}
@@ -451,7 +475,7 @@ func c18Key(raw []byte) string {
 
 func c18Nontrivial(c *c18Case) bool {
 	for _, p := range c.Parts {
-		if p.Decl > 0 && p.Decl != p.Name.N {
+		if p.Decl > 0 && (p.Decl != p.Name.N || !p.Present) {
 			return true
 		}
 	}
@@ -521,9 +545,13 @@ func c18SelfTest(i int, raw []byte) Result {
 	}
 	// declared parts in declared order with their member names (rendering only)
 	ps := []c18Part{}
+	absent := []string{}
 	for _, q := range c.Parts {
 		if q.Decl > 0 {
 			ps = append(ps, q)
+		}
+		if !q.Present {
+			absent = append(absent, c18NameStr(q.Name))
 		}
 	}
 	sort.SliceStable(ps, func(a, b int) bool { return ps[a].Decl < ps[b].Decl })
@@ -536,7 +564,9 @@ func c18SelfTest(i int, raw []byte) Result {
 	sort.SliceStable(zs, func(a, b int) bool { return zs[a].Zip < zs[b].Zip })
 	zord := []string{}
 	for _, q := range zs {
-		zord = append(zord, c18NameStr(q.Name))
+		if q.Present {
+			zord = append(zord, c18NameStr(q.Name))
+		}
 	}
-	return Result{OK: true, Replay: map[string]interface{}{"path": p, "fmt": c.Fmt, "members": ooxmlw.Names(ms), "declared": decl, "ziporder": zord}}
+	return Result{OK: true, Replay: map[string]interface{}{"path": p, "fmt": c.Fmt, "members": ooxmlw.Names(ms), "declared": decl, "ziporder": zord, "absent": absent}}
 }
